@@ -7,6 +7,7 @@ of the declared *kind* that injectively encodes the combination it was called wi
 import os, json, math
 
 LOG_ENV = 'XYZV_CALLLOG'
+FAIL_ENV = 'XYZV_FAILFILE'
 
 
 def log_path():
@@ -93,7 +94,7 @@ class Rec:
             v = kw[a]
             r = None
             for i, x in enumerate(vals):
-                if type(x) is type(v) and x == v or (not isinstance(x, str) and not isinstance(v, str) and x == v):
+                if x == v:
                     r = i; break
             if r is None:
                 raise KeyError(f'value {v!r} of {a} not in spec')
@@ -105,6 +106,11 @@ class Rec:
         c = self.code(kw)
         if c in self.spec.get('fail_codes', ()):
             raise ValueError('boom')
+        ff = os.environ.get(FAIL_ENV)
+        if ff and os.path.exists(ff):
+            with open(ff) as fh:
+                if c in json.load(fh):
+                    raise ValueError('boom')
         out = render(self.spec['kind'], c)
         if self.spec.get('as_xr'):
             import xarray as xr, numpy as np
